@@ -284,7 +284,41 @@ def dispatch(func, args, kwargs):
         return _dispatch(func, args, kwargs)
 
 
+def _written_plain(func, args, kwargs):
+    """plain (non-SymTensor) tensors that this op mutates: a wrapped copy would silently lose the write."""
+    out = []
+    try:
+        sargs = func._schema.arguments
+    except Exception:
+        return out
+    for i, sa in enumerate(sargs):
+        if sa.alias_info is not None and sa.alias_info.is_write:
+            v = args[i] if i < len(args) else kwargs.get(sa.name)
+            if isinstance(v, torch.Tensor) and not isinstance(v, SymTensor):
+                out.append((i, sa.name, v))
+    return out
+
+
 def _dispatch(func, args, kwargs):
+    wp = _written_plain(func, args, kwargs)
+    if wp:
+        # mutate a wrapped copy, then write the (necessarily concrete) result back into the caller's plain tensor
+        largs = list(args)
+        lkw = dict(kwargs)
+        wrapped = []
+        for i, name, v in wp:
+            w = wrap(v)
+            wrapped.append((v, w))
+            if i < len(largs):
+                largs[i] = w
+            else:
+                lkw[name] = w
+        r = _dispatch(func, tuple(largs), lkw)
+        for v, w in wrapped:
+            if w.box.conc is None and not w.is_concrete():
+                raise EngineGap(f"{func}: in-place symbolic write into a plain tensor created outside SymMode")
+            v.copy_(w.materialize())
+        return tree_map(lambda o: next((v for v, w in wrapped if o is w), o), r)
     args = _wrap_all(args)
     kwargs = _wrap_all(kwargs)
     syms = [a for a in tree_flatten((args, kwargs))[0] if isinstance(a, SymTensor)]
